@@ -193,7 +193,8 @@ def c05(pid, tier, replay):
                          + devdrivers.c08_batches(seed, "quick"))
     jobs = [J("keys", Variant="keys", Mode="interrupt", OctB=1, ChanB=0)] if tier == "quick" else keys_jobs("quick")
     return device_check(pid, tier, replay, ["C05_"], jobs,
-                        drivers=[boundary, axes_through_parser, devdrivers.random_keys, devdrivers.action_axis_batches],
+                        drivers=[boundary, axes_through_parser, devdrivers.random_keys, devdrivers.action_axis_batches,
+                                 cfggen.end_to_end_batches],
                         assumptions=ASSUME_DEV[:2] + [
                             "configurations are rendered as TOML and parsed by the real config.ParseData"])
 
@@ -372,6 +373,20 @@ def c10(pid, tier, replay):
     else:
         cases = cfggen.c10_cases(vlib.seed(), tier)
     t = run_parse_cases(scr, h, cases, "c10")
+    # end to end: what the parser returned drives the real engine; the engine model runs on what the description means
+    e2e_viol = []
+    if not replay:
+        eb = cfggen.end_to_end_batches(vlib.seed(), tier)
+        et, _ = devcheck.run_harness(scr, eb, tag="e2e")
+        er = vlib.validate_trace(scr, "DeviceTrace", et, xmx="3g")
+        out.states += er["_tlc"]["distinct"] or 0
+        out.transitions += er["_tlc"]["generated"] or 0
+        out.extra["end_to_end_events"] = er["lines"]
+        out.extra["end_to_end_lives"] = devcheck.count_walks(et)
+        for name, ln in er["viol"]:
+            cfgx, events = devcheck.trace_context(et, ln)
+            e2e_viol.append(("C10_EndToEnd", {"ev": "e2e", "predicate": name, "cfg": cfgx, "events": events[-6:]}))
+        out.viol.extend(e2e_viol[:10])
     chunks = split_ndjson(scr, t, 8 if tier == "quick" else 14)
     for tf, r in zip(chunks, vlib.validate_traces_parallel(scr, "ConfigFileTrace", chunks, xmx="3g")):
         out.add(tf, r, sample_filter=lambda d: d.get("kind") != "valid")
